@@ -3,6 +3,7 @@ package PKG
 import (
 	"fmt"
 	"os"
+	"runtime"
 	"testing"
 	"time"
 )
@@ -28,6 +29,7 @@ func TestVerifReplay(t *testing.T) {
 			}
 			done <- "returned"
 		}()
+		vBaseGoroutines = runtime.NumGoroutine()
 		h()
 	}()
 	var res string
@@ -39,6 +41,11 @@ func TestVerifReplay(t *testing.T) {
 	for _, k := range vKnownHit {
 		fmt.Println("VERIF-KNOWN", k)
 	}
+	vEvalMu.Lock()
+	for _, id := range vEvalOrder {
+		fmt.Println("VERIF-EVAL", id)
+	}
+	vEvalMu.Unlock()
 	for _, f := range vFailed {
 		fmt.Println("VERIF-RESULT assert-failed", f)
 	}
